@@ -38,7 +38,8 @@ def _flat(idx, shape):
 
 
 class Treeifier:
-    def __init__(self, coef_index, const_index, nargs_conj=False):
+    def __init__(self, coef_index, const_index, arg_pos=None):
+        self.arg_pos = arg_pos or {}
         self.coef_index = coef_index      # ufl Coefficient -> position in the kernel's w
         self.const_index = const_index    # ufl Constant -> position in c
         self.aleaves, self.cleaves = [], []
@@ -93,7 +94,7 @@ class Treeifier:
         vidx, didx = idx[:len(idx) - nd], idx[len(idx) - nd:]
         c = _flat(vidx, e.ufl_shape)
         if isinstance(e, uc.Argument):
-            return self._arg(e.number(), c, didx, r)
+            return self._arg(self.arg_pos.get(e.number(), e.number()), c, didx, r)
         if isinstance(e, uc.Coefficient):
             return self._coef(self.coef_index[e], c, didx, r)
         if isinstance(e, uc.Constant):
